@@ -73,6 +73,8 @@ func TestC17Registry(t *testing.T) {
 			bg := sim.GenBlock(t, view, 3)
 			// registry traffic on top
 			g := chain.NewTxGen(sim.W, view, "registry")
+			// preconditions of the two recorded registry findings are only built while they are not listed as known
+			g.Allow = map[string]bool{chain.SigStaleNodeClaims: !ev.Excluded(chain.SigStaleNodeClaims), chain.SigNodeKeyAsSubKey: !ev.Excluded(chain.SigNodeKeyAsSubKey)}
 			// nonces: account for what GenBlock already generated for the same signers
 			for _, d := range bg.Txs {
 				if d.ExpectAuthOK {
@@ -140,6 +142,9 @@ func TestC17Registry(t *testing.T) {
 			cv.Close()
 			if sig == "registry-unreadable" {
 				ev.Infra(t, "%s", msg)
+			}
+			if sig == "wrong-stake-claim" && sim.W.RtThresholdsChanged {
+				sig = chain.SigStaleNodeClaims // (node claims computed from the runtime descriptor as it was when the node registered)
 			}
 			if sig != "" {
 				fail(sig, "after block %d: %s", b.Height, msg)
